@@ -92,6 +92,36 @@ func b32aliasCheck(str string, idx []uint32, want string) string {
 	if after := p.String(); after != before {
 		return "ALIAS:parent-changed"
 	}
+	// the same for every object met on the way: the neutered parent and the (neutered) children must keep their own
+	// serialisation, depth and parent fingerprint while children are derived FROM them (seed C14-5: Neuter laid the key
+	// and the fingerprint out in one buffer and Child appended the index to the key slice of its receiver)
+	var objs []*hdkeychain.ExtendedKey
+	if p.IsPrivate() {
+		if n, err := p.Neuter(); err == nil {
+			objs = append(objs, n)
+		}
+	}
+	for _, i := range sib {
+		if c, err := p.Child(i); err == nil {
+			objs = append(objs, c)
+			if c.IsPrivate() {
+				if n, err := c.Neuter(); err == nil {
+					objs = append(objs, n)
+				}
+			}
+		}
+	}
+	for _, o := range objs {
+		s0, fp0, d0 := o.String(), o.ParentFingerprint(), o.Depth()
+		for _, i := range []uint32{0, 1, 7, hdkeychain.HardenedKeyStart} {
+			if c, err := o.Child(i); err == nil {
+				_ = c.String()
+			}
+		}
+		if o.String() != s0 || o.ParentFingerprint() != fp0 || o.Depth() != d0 {
+			return "ALIAS:object-changed-by-deriving-from-it"
+		}
+	}
 	k := p
 	for _, i := range idx {
 		if k, err = k.Child(i); err != nil {
